@@ -9,6 +9,12 @@
 //!   bump | reset | reopen                    -> ok             reopen = drop, LruManager::new(cap, same dir)
 //!   checkpoint | load <gen>                  -> ok|err
 //!   run_cycle <limit> <avg>                  -> ok loaded=<n> evicted=<n> freed=<n> active=<n> | err
+//!   filecheck                                -> nofile | file walk=bad |
+//!                                               file n=<entries> linked=<i,i,…|-> free=<n> stale=<n> prev=<ok|bad> head=<ok|bad>
+//!     (no state change: the `.lru` file of the current generation, parsed by this file's own
+//!      reader, walked as a doubly linked list from lru_tail via `next`; `linked` = keys met, as
+//!      universe indices; free/stale = unlinked slots that are / are not LruFileEntry::empty();
+//!      prev/head = every `prev` field and mru_head mirror the walk)
 //! every response except `begin`'s is followed by the observable state
 //!   ` | len=<n> order=<i,i,…|-> has=<0/1 per universe key> gen=<g> prev=<p>`
 //! `order` is `for_each_entry` (LRU tail -> MRU head) as universe indices.
@@ -35,6 +41,7 @@ enum Op {
     RunCycle(u64, u64),
     Reset,
     Reopen,
+    FileCheck,
 }
 
 impl Op {
@@ -50,6 +57,7 @@ impl Op {
             Op::RunCycle(l, a) => format!("run_cycle {l} {a}"),
             Op::Reset => "reset".into(),
             Op::Reopen => "reopen".into(),
+            Op::FileCheck => "filecheck".into(),
         }
     }
     fn parse(t: &[&str], nkeys: usize) -> Option<Op> {
@@ -65,6 +73,7 @@ impl Op {
             ["run_cycle", a, b] => Op::RunCycle(a.parse().ok()?, b.parse().ok()?),
             ["reset"] => Op::Reset,
             ["reopen"] => Op::Reopen,
+            ["filecheck"] => Op::FileCheck,
             _ => return None,
         })
     }
@@ -149,6 +158,7 @@ struct Case {
     dead: bool,       // an oracle failure ended the case
     dir_made: bool,   // the directory is created at the first checkpoint (a missing directory reads as empty)
     zero_iter_reported: bool,
+    file_checked: bool,
     // branch coverage of this case
     evict_on_full: bool,
     reload_ok: bool,
@@ -201,6 +211,73 @@ fn observe(lru: &LruManager, keys: &[Key], cap: u32) -> Obs {
     }
 }
 
+/// A `.lru` file read as a doubly linked list by a reader that shares no code with the crate.
+struct FileView {
+    n: usize,
+    linked: Option<Vec<Key>>, // None = the `next` walk leaves the array or does not end
+    free: usize,
+    stale: usize,
+    prev_ok: bool,
+    head_ok: bool,
+}
+
+const SENT: u32 = 0xFFFF_FFFF;
+
+/// None = no file, wrong size, unknown version or MD5 mismatch (what `deserialize` rejects).
+fn read_file_view(path: &Path) -> Option<FileView> {
+    let data = std::fs::read(path).ok()?;
+    if data.len() < 28 || (data.len() - 28) % 20 != 0 {
+        return None;
+    }
+    let version = u16::from_le_bytes([data[0], data[1]]);
+    if version > 1 {
+        return None;
+    }
+    let mut zeroed = data.clone();
+    zeroed[4..20].fill(0);
+    if md5::compute(&zeroed).0 != data[4..20] {
+        return None;
+    }
+    let u32at = |o: usize| u32::from_le_bytes([data[o], data[o + 1], data[o + 2], data[o + 3]]);
+    let (head, tail) = (u32at(20), u32at(24));
+    let n = (data.len() - 28) / 20;
+    let ent = |i: usize| -> (u32, u32, Key, u8) {
+        let o = 28 + 20 * i;
+        (u32at(o), u32at(o + 4), data[o + 8..o + 17].try_into().unwrap(), data[o + 17])
+    };
+    // walk `next` from the tail
+    let mut slots: Vec<usize> = vec![];
+    let mut idx = tail;
+    let mut walk_ok = true;
+    while idx != SENT {
+        if idx as usize >= n || slots.len() > n {
+            walk_ok = false;
+            break;
+        }
+        slots.push(idx as usize);
+        idx = ent(idx as usize).1;
+    }
+    if !walk_ok {
+        return Some(FileView { n, linked: None, free: 0, stale: 0, prev_ok: false, head_ok: false });
+    }
+    let mut prev_ok = true;
+    let mut expect = SENT;
+    for &s in &slots {
+        if ent(s).0 != expect { prev_ok = false; }
+        expect = s as u32;
+    }
+    let head_ok = head == slots.last().map_or(SENT, |s| *s as u32);
+    let mut seen = vec![false; n];
+    for &s in &slots { seen[s] = true; }
+    let (mut free, mut stale) = (0, 0);
+    for i in 0..n {
+        if !seen[i] {
+            if ent(i) == (SENT, SENT, ZERO, 0) { free += 1; } else { stale += 1; }
+        }
+    }
+    Some(FileView { n, linked: Some(slots.iter().map(|s| ent(*s).2).collect()), free, stale, prev_ok, head_ok })
+}
+
 fn disk_generations(dir: &Path) -> Vec<u64> {
     let mut v = vec![];
     if let Ok(rd) = std::fs::read_dir(dir) {
@@ -236,6 +313,7 @@ impl Case {
             dead: false,
             dir_made: false,
             zero_iter_reported: false,
+            file_checked: false,
             evict_on_full: false,
             reload_ok: false,
             evict_to_hit: false,
@@ -252,6 +330,7 @@ impl Case {
         if self.reload_ok { cx.s.tally("case.reload-ok"); }
         if self.evict_to_hit { cx.s.tally("case.evict_to-evicts"); }
         if self.refill_after_evict { cx.s.tally("case.refill-after-public-evict"); }
+        if self.file_checked { cx.s.tally("case.checkpoint-file-read-as-list"); }
         if self.zero_idx.is_some() { cx.s.tally("case.universe-has-zero-key"); }
         cx.s.tally(&format!("cap.{}", if self.cap <= 3 { self.cap.to_string() } else if self.cap <= 8 { "4-8".into() } else if self.cap <= 32 { "9-32".into() } else { "33+".into() }));
         let l = self.log.len() - 1;
@@ -282,6 +361,7 @@ impl Case {
         let dir = &self.dir;
         let rt = &cx.rt;
         let mut reopened: Option<LruManager> = None;
+        let mut file_view: Option<FileView> = None;
         let res: Result<String, String> = catch(AssertUnwindSafe(|| match op {
             Op::Touch(i) => lru.touch(&keys[*i]).to_string(),
             Op::Remove(i) => lru.remove(&keys[*i]).to_string(),
@@ -296,6 +376,17 @@ impl Case {
             },
             Op::Reset => { lru.reset(); "ok".into() }
             Op::Reopen => { reopened = Some(LruManager::new(cap, dir.clone())); "ok".into() }
+            Op::FileCheck => {
+                file_view = read_file_view(&cascette_client_storage::lru::lru_file::lru_file_path(dir, lru.generation()));
+                match &file_view {
+                    None => "nofile".into(),
+                    Some(FileView { linked: None, .. }) => "file walk=bad".into(),
+                    Some(v) => {
+                        let l: Vec<String> = v.linked.as_ref().unwrap().iter().map(|k| keys.iter().position(|x| x == k).map_or("?".to_string(), |i| i.to_string())).collect();
+                        format!("file n={} linked={} free={} stale={} prev={} head={}", v.n, if l.is_empty() { "-".to_string() } else { l.join(",") }, v.free, v.stale, if v.prev_ok { "ok" } else { "bad" }, if v.head_ok { "ok" } else { "bad" })
+                    }
+                }
+            }
         }));
         if let Some(m) = reopened {
             self.lru = m;
@@ -403,6 +494,34 @@ impl Case {
             Op::Reset | Op::Reopen => {
                 r.order.clear();
                 self.evicted_since_fill = false;
+            }
+            Op::FileCheck => {
+                // the representation invariant, on the bytes the real code wrote: a well-formed
+                // doubly linked list over `capacity` slots, every other slot empty, holding the
+                // textbook LRU's keys of the moment of the checkpoint in the textbook order
+                if let Some(v) = &file_view {
+                    self.file_checked = true;
+                    match &v.linked {
+                        None => fails.push(("lru-file-walk".into(), "the `next` walk from lru_tail in the checkpoint file leaves the entry array or does not end".into())),
+                        Some(l) => {
+                            if !v.prev_ok { fails.push(("lru-file-prev".into(), "a `prev` field in the checkpoint file does not point to the predecessor on the `next` walk".into())); }
+                            if !v.head_ok { fails.push(("lru-file-head".into(), "mru_head in the checkpoint file is not the last entry of the `next` walk".into())); }
+                            if v.stale != 0 { fails.push(("lru-file-stale-slot".into(), format!("{} unlinked slot(s) of the checkpoint file are not LruFileEntry::empty()", v.stale))); }
+                            if v.n != self.cap as usize || l.len() + v.free + v.stale != v.n {
+                                fails.push(("lru-file-slot-count".into(), format!("checkpoint file has {} slots ({} linked, {} empty) for capacity {}", v.n, l.len(), v.free, self.cap)));
+                            }
+                            if let Some(snap) = r.snaps.get(&obs.generation) {
+                                let got: Vec<Option<usize>> = l.iter().map(|k| self.keys.iter().position(|x| x == k)).collect();
+                                let want: Vec<Option<usize>> = snap.iter().map(|i| Some(*i)).collect();
+                                if got != want {
+                                    fails.push(("lru-file-order".into(), format!("checkpoint file of generation {} links {:?}, the textbook LRU held {:?} when it was written", obs.generation, got, want)));
+                                }
+                            } else {
+                                fails.push(("lru-load-unknown".into(), format!("a valid checkpoint file of generation {} exists that no checkpoint wrote", obs.generation)));
+                            }
+                        }
+                    }
+                }
             }
         }
         // state comparison
@@ -529,6 +648,10 @@ fn exhaustive(cx: &mut Ctx, cap: u32, keys: &[Key], alphabet: &[Op], len: usize,
                 if !c.apply(cx, &alphabet[i]) {
                     break;
                 }
+                // every checkpoint file is read back as a linked list (no state change)
+                if alphabet[i] == Op::Checkpoint && !c.apply(cx, &Op::FileCheck) {
+                    break;
+                }
             }
             c.end(cx);
         }
@@ -595,6 +718,11 @@ fn random_history(cx: &mut Ctx, rng: &mut Rng, cap: u32, max_len: usize) {
         if matches!(op, Op::Checkpoint) {
             let g = c.lru.generation();
             if !known_gens.contains(&g) { known_gens.push(g); }
+        }
+        if (matches!(op, Op::Checkpoint) && rng.chance(2, 3)) || (persist && rng.chance(1, 25)) {
+            if !c.apply(cx, &Op::FileCheck) {
+                break;
+            }
         }
     }
     c.end(cx);
@@ -667,7 +795,7 @@ fn main() {
         beat,
         sig_count: HashMap::new(),
     };
-    cx.s.rule = "op histories over touch/remove/evict_tail/evict_to_target/bump_generation/checkpoint_to_disk/load_from_disk/run_cycle/reset/reopen on the real LruManager (real files in a temp dir): (A) every in-memory history up to a length bound over capacities 1-3 and the keys {all-zero, a, b, c} (non-zero keys in canonical first-use order), (B) every persistence history up to a shorter bound over capacities 1-3 and keys {all-zero, a, b}, (C) seeded random long histories for capacities 0..64 with directed fill / public-evict / refill phases; evaluation = one history; non-trivial = history reaches touch-evicts-at-capacity, an evict_to_target that evicts, or a successful reload; distinct = canonical request text of the history".into();
+    cx.s.rule = "op histories over touch/remove/evict_tail/evict_to_target/bump_generation/checkpoint_to_disk/load_from_disk/run_cycle/reset/reopen on the real LruManager (real files in a temp dir): (A) every in-memory history up to a length bound over capacities 1-3 and the keys {all-zero, a, b, c} (non-zero keys in canonical first-use order), (B) every persistence history up to a shorter bound over capacities 1-3 and keys {all-zero, a, b}, (C) seeded random long histories for capacities 0..64 with directed fill / public-evict / refill phases; in (B) after every checkpoint and in (C) after 2/3 of them and at random points a `filecheck` reads the .lru file of the current generation back as a doubly linked list (own parser) and holds it against the representation invariant and the textbook order; evaluation = one history; non-trivial = history reaches touch-evicts-at-capacity, an evict_to_target that evicts, or a successful reload; distinct = canonical request text of the history".into();
     let mut rng = Rng::new(args.seed);
 
     if let Some(p) = &args.replay {
